@@ -70,6 +70,8 @@ type Engine struct {
 	opaqueErrT types.Type
 	curParams []int
 	noIfConv  bool
+	specDepth int
+	ifSites   map[siteKey]*siteStat
 }
 
 func (e *Engine) fnName(fn *ssa.Function) string {
